@@ -59,8 +59,74 @@ def gen(n, seed):
     return out
 
 
+def structure(p):
+    """structural class of a program for the semiring mode: which facts each atom depends on"""
+    facts = {f["atom"]["f"] for f in p["facts"]} | {h["atom"]["f"] for ad in p["ads"] for h in ad["heads"]}
+    sup = {f: {f} for f in facts}
+    changed = True
+    while changed:
+        changed = False
+        for r in p["rules"]:
+            h = r["head"]["f"]
+            s = set(sup.get(h, set()))
+            for l in r["body"]:
+                s |= sup.get(l["atom"]["f"], set())
+            if s != sup.get(h, set()):
+                sup[h] = s
+                changed = True
+    disjoint = True
+    for r in p["rules"]:
+        seen = set()
+        for l in r["body"]:
+            x = sup.get(l["atom"]["f"], set())
+            if seen & x:
+                disjoint = False
+            seen |= x
+    rel = set()
+    for e in p["evidence"]:
+        x = sup.get(e["atom"]["f"], set())
+        if rel & x:
+            disjoint = False          # the evidence atoms are conjoined too
+        rel |= x
+    return {"has_ad": bool(p["ads"]), "conj_disjoint": disjoint, "all_choices_relevant": rel == facts,
+            "negation": any(l["s"] == 0 for r in p["rules"] for l in r["body"]) or any(e["s"] == 0 for e in p["evidence"])}
+
+
+def gen_readonce(n, seed):
+    """facts only, every fact below the evidence, conjunctions over disjoint supports, derived atoms shared between rules"""
+    rng = random.Random(seed * 5003 + 11)
+    out = []
+    while len(out) < n:
+        p = progs.empty_program(["c1"])
+        positive = rng.random() < 0.7
+        k = rng.randint(3, 6)
+        fs = ["f%d" % i for i in range(k)]
+        for f in fs:
+            p["facts"].append({"p": [rng.randint(1, 9), 10], "atom": atom(f)})
+        rng.shuffle(fs)
+        cut = rng.randint(1, min(3, k - 1))
+        dfs, rest = fs[:cut], fs[cut:]
+        for f in dfs:                                   # d: a disjunction of facts (a shared compound subformula)
+            p["rules"].append({"head": atom("d"), "body": [lit(atom(f), 1 if positive or rng.random() < 0.8 else 0)]})
+        used = []
+        for f in rest:
+            if rng.random() < 0.7:
+                b = [lit(atom("d")), lit(atom(f), 1 if positive or rng.random() < 0.8 else 0)]
+                if rng.random() < 0.5:
+                    b.reverse()
+                p["rules"].append({"head": atom("e"), "body": b})
+            else:
+                p["rules"].append({"head": atom("e"), "body": [lit(atom(f))]})
+            used.append(f)
+        for f in fs:
+            p["queries"].append(atom(f))
+        p["evidence"].append({"atom": atom("e"), "s": 1 if positive or rng.random() < 0.8 else 0})
+        out.append(p)
+    return out
+
+
 def run(ctx):
-    P = gen(ctx.pick(160, 2000), ctx.seed)
+    P = gen(ctx.pick(160, 2000), ctx.seed) + gen_readonce(ctx.pick(120, 1500), ctx.seed)
     jobs, idx = [], []
     for i, p in enumerate(P):
         t = progs.render(p)
@@ -73,6 +139,8 @@ def run(ctx):
         p = P[i]
         ctx.evaluations += 1
         sig0 = {"mode": "semiring" if mode else "maxsat"}
+        if mode:
+            sig0.update(structure(p))
         case = {"program": p, "text": progs.render(p), "use_semiring": mode}
         if r.get("error"):
             if r.get("inconclusive"):
